@@ -229,6 +229,10 @@ class VEx:
     def _place(self, l, proj, at, depth):
         # follow single-definition copies, remembering where the value was read
         guard = 0
+        # position of the read inside block `at` when it is a statement we arrived at by following a definition
+        # (None: a terminator operand / unknown = after all statements of the block)
+        pos = getattr(self, "_read_pos", None)
+        idx = pos[1] if pos is not None and pos[0] == at else None
         while guard < 64:
             guard += 1
             if l == 1 and self.upvars:
@@ -246,6 +250,12 @@ class VEx:
                     ds = [d_ for d_ in self.tr.defs.get(l, []) if d_[0] == v[1]]
                     if len(ds) == 1 and ds[0][2] in ("assign", "call") and v[1] != at:
                         d = ds[0]
+                elif v[0] == "mid" and l not in self.mw and idx is not None:
+                    # defined by a statement of this very block: the last such statement before the reading one
+                    cands = [d_ for d_ in self.tr.defs.get(l, []) if d_[0] == at and d_[2] == "assign" and isinstance(d_[1], int) and
+                             d_[1] < idx and not d_[3]["p"]["p"]]
+                    if cands:
+                        d = max(cands, key=lambda d_: d_[1])
                 if d is None:
                     leaf = ("var", self.root_name(l), l, v)
                     return self._wrap(leaf, self.fields_of(proj))
@@ -256,23 +266,34 @@ class VEx:
             if d[2] == "assign":
                 rv = d[3]["rv"]
                 r = rv["r"]
+                didx = d[1] if isinstance(d[1], int) else None
                 if r == "use" and op_place(rv["o"]) is not None:
                     p2 = op_place(rv["o"])
-                    l, proj, at = p2["l"], [proj_key(e) for e in p2["p"]] + proj, d[0]
+                    l, proj, at, idx = p2["l"], [proj_key(e) for e in p2["p"]] + proj, d[0], didx
                     continue
                 if r == "cfd":
                     p2 = rv["p"]
-                    l, proj, at = p2["l"], [proj_key(e) for e in p2["p"]] + proj, d[0]
+                    l, proj, at, idx = p2["l"], [proj_key(e) for e in p2["p"]] + proj, d[0], didx
                     continue
                 if r == "ref" and proj and proj[0] == "deref":
                     p2 = rv["p"]
-                    l, proj, at = p2["l"], [proj_key(e) for e in p2["p"]] + proj[1:], d[0]
+                    l, proj, at, idx = p2["l"], [proj_key(e) for e in p2["p"]] + proj[1:], d[0], didx
                     continue
-                base = self._rvalue(rv, d[0], depth + 1)
+                saved = getattr(self, "_read_pos", None)
+                self._read_pos = (d[0], didx) if didx is not None else None
+                try:
+                    base = self._rvalue(rv, d[0], depth + 1)
+                finally:
+                    self._read_pos = saved
                 return self._select(base, proj)
             if d[2] == "call":
                 t = d[3]
-                base = self._call(t, d[0], depth + 1)
+                saved = getattr(self, "_read_pos", None)
+                self._read_pos = None                   # call operands are read after all statements of the block
+                try:
+                    base = self._call(t, d[0], depth + 1)
+                finally:
+                    self._read_pos = saved
                 return self._select(base, proj)
             return ("?",)
         return ("?",)
@@ -292,6 +313,12 @@ class VEx:
             fs = [e for e in proj if e != "deref" and not (isinstance(e, tuple) and e[0] == "dc")]
             if fs and isinstance(fs[0], tuple) and fs[0][0] == "f" and fs[0][1] < len(base[2]):
                 inner = base[2][fs[0][1]]
+                # what is left of the projection after this field (a nested aggregate is selected from in turn:
+                # `(x as Some).0` of `Some(TwoBytes(n))`, then `(.. as TwoBytes).0`)
+                k = list(proj).index(fs[0])
+                remaining = list(proj)[k + 1:]
+                if remaining and inner[0] in ("agg", "ref"):
+                    return self._select(inner, remaining)
                 rest = self.fields_of(fs[1:])
                 return self._wrap(inner, rest) if rest else inner
         if base[0] == "ref" and proj and proj[0] == "deref":
